@@ -623,22 +623,16 @@ def _impl_cvc_wrap(L, c, A, fill):
         g = cvc_fields(L, st)
         res['pubkey'] = g['pubkey']; res['sig'] = g['sig']
         res['len'] = L.sz('btokCVCLen', A.buf(cert + b'\x00\x01'), len(cert) + 2)
-        res['match'] = L.err('btokCVCMatch', A.buf(cert), len(cert), A.buf(c['privkey']), len(c['privkey']))
     return res
 def _ref_cvc_wrap(c):
     f = {k: v for k, v in c.items() if k != 'privkey'}
     import bign
     n = len(c['privkey'])
     chk = S.cvc_check(dict(f, pubkey=f.get('pubkey') or bign.enc_point(LEVEL[n], bign.pubkey_calc(LEVEL[n], c['privkey']))))
-    if chk in ('BAD_NAME', 'BAD_DATE'):
-        return {'ret': E[chk]}
     if chk != 'OK':
-        return {'ret': E['BAD_PUBKEY']}
+        return {'ret': lambda r: r != 0}          # btok.h: "an error code"; the class is not documented
     g, cert = cvc_model_wrap(f, c['privkey'])
-    res = {'ret': 0, 'cert': cert, 'pubkey': g['pubkey'], 'sig': g['sig'], 'len': len(cert)}
-    if not f.get('pubkey'):
-        res['match'] = 0
-    return res
+    return {'ret': 0, 'cert': cert, 'pubkey': g['pubkey'], 'sig': g['sig'], 'len': len(cert)}
 _reg('btokCVCWrap', _impl_cvc_wrap, _ref_cvc_wrap, ret='err', faultable=True, secrets=('privkey',))
 
 def _impl_cvc_unwrap(L, c, A, fill):
@@ -666,10 +660,41 @@ def cvc_model_unwrap(cert, pubkey=None):
     return S.cvc_check(f), f
 def _ref_cvc_unwrap(c):
     e, f = cvc_model_unwrap(c['cert'], c.get('pubkey'))
+    if e == 'BAD_FORMAT':
+        return {'ret': E[e]}                       # btok.h: wrong lengths / trailing octets "are a format error"
     if e != 'OK':
-        return {'ret': E[e]}
+        return {'ret': lambda r: r not in (0, E['BAD_FORMAT'])}
     return dict({k: f[k] for k in ('authority', 'holder', 'pubkey', 'hat_eid', 'hat_esign', 'from', 'until', 'sig')}, ret=0)
 _reg('btokCVCUnwrap', _impl_cvc_unwrap, _ref_cvc_unwrap, ret='err', faultable=True)
+
+def _impl_cvc_match(L, c, A, fill):
+    return {'ret': L.err('btokCVCMatch', A.buf(c['cert']), len(c['cert']), A.buf(c['privkey']), len(c['privkey']))}
+def _ref_cvc_match(c):
+    import bign
+    e, f = cvc_model_unwrap(c['cert'])
+    if e != 'OK':
+        return {'ret': lambda r: r != 0}
+    n = len(c['privkey'])
+    ok = n in LEVEL and len(f['pubkey']) == 2 * n and bign.privkey_is_valid(LEVEL[n], c['privkey']) and \
+        bign.enc_point(LEVEL[n], bign.pubkey_calc(LEVEL[n], c['privkey'])) == f['pubkey']
+    return {'ret': 0} if ok else {'ret': lambda r: r != 0}
+_reg('btokCVCMatch', _impl_cvc_match, _ref_cvc_match, ret='err', faultable=True, secrets=('privkey',))
+
+def _impl_bign_oid(L, c, A, fill):
+    s = A.buf(c['oid'].encode('latin1') + b'\0')
+    cnt = A.buf(int(c['count']).to_bytes(8, 'little'))
+    b = A.buf(c['count'], fill)
+    r = L.err('bignOidToDER', b, cnt, s)
+    n = u64(cnt.get(), 0)
+    return {'ret': r, 'n': n if r == 0 else None, 'der': b.get()[:n] if r == 0 else None}
+def _ref_bign_oid(c):
+    d = C.oid_to_der(c['oid'])
+    if d is None:
+        return {'ret': E['BAD_OID']}                # bign.h: an incorrect identifier gives ERR_BAD_OID
+    if c['count'] < len(d):
+        return {'ret': lambda r: r != 0}
+    return {'ret': 0, 'n': len(d), 'der': d}
+_reg('bignOidToDER', _impl_bign_oid, _ref_bign_oid, ret='err')
 
 # ---- bpki containers
 def _impl_bpki_wrap(L, c, A, fill):
@@ -696,6 +721,25 @@ def _ref_bpki_unwrap(c):
         return {'ret': lambda r: r != 0}
     return {'ret': 0, 'secret': k}
 _reg('bpki.unwrap', _impl_bpki_unwrap, _ref_bpki_unwrap, ret='err', faultable=True, secrets=('pwd',))
+def _bpki_derived(c, res):
+    """the PBKDF2 output (key of belt-kwp) and the protected secret, where the reference has them at hand"""
+    out = []
+    if 'epki' in c:
+        e = S.epki_dec(c['epki'])
+        k = S._kdf_cache.get((bytes(c['pwd']), e['salt'], e['iter'])) if e else None
+        if k:
+            out.append(('PBKDF2 key', k))
+            import belt
+            p = belt.kwp_unwrap(k, e['edata'], None) if len(e['edata']) >= 32 else None
+            if p:
+                out.append(('PrivateKeyInfo', p))
+    else:
+        k = S._kdf_cache.get((bytes(c['pwd']), bytes(c['salt']), c['iter']))
+        if k:
+            out.append(('PBKDF2 key', k))
+    return out
+cat.CAT['bpki.wrap'].derived = _bpki_derived
+cat.CAT['bpki.unwrap'].derived = _bpki_derived
 
 # ---- secure messaging
 def _impl_sm_cmd(L, c, A, fill):
@@ -749,6 +793,8 @@ def _ref_sm_unwrap(c):
     fmt = (S.sm_cmd_parse(c['apdu'], canonical=False) if c['what'] == 'cmd' else S.sm_resp_parse(c['apdu'])) is not None
     return {'ret': E[e], 'fmt': 0 if fmt else E['BAD_APDU']}
 _reg('btokSM.unwrap', _impl_sm_unwrap, _ref_sm_unwrap, ret='err')
+for _n in ('btokSM.cmd', 'btokSM.resp'):
+    cat.CAT[_n].derived = lambda c, res: [('SM key%d' % (i + 1), k) for i, k in enumerate(S.sm_keys(c['key']))]
 
 # =================================================================== corpus
 PWD = b'zed'
@@ -898,6 +944,7 @@ def gen_cases(tier):
             out.append(('btokCVCWrap', dict(f, privkey=privkey(n))))
             g, cert = cvc_model_wrap(f, privkey(n))
             out.append(('btokCVCUnwrap', dict(cert=cert, pubkey=None)))
+            out.append(('btokCVCMatch', dict(cert=cert, privkey=privkey(n))))
             if hats[0]:
                 out.append(('btokCVCUnwrap', dict(cert=cert, pubkey=g['pubkey'])))
                 out.append(('btokCVCUnwrap', dict(cert=cert + b'\0', pubkey=None)))
@@ -940,4 +987,48 @@ def gen_cases(tier):
     for k in range(len(w)):
         m = bytearray(w); m[k] ^= 0x80
         out.append(('btokSM.unwrap', dict(what='resp', key=SMKEY, ctr=2, apdu=bytes(m))))
+    return out
+
+# =================================================================== hooks for C09 / C15
+def sweep_cases(tier):
+    """out-of-domain arguments whose error the headers document (reference predicates above)"""
+    out = []
+    for o in ('', '1', '3.1', '1.40', '1.2.4294967296', '01.2', '1.2.', 'a.b'):
+        out.append(('bignOidToDER', dict(oid=o, count=32)))
+    for cnt in (0, 1, 12, 13, 14):
+        out.append(('bignOidToDER', dict(oid='1.2.112.0.2.0.34.101.45.2.1', count=cnt)))
+    for l in (0, 64, 127, 129, 160, 255, 257, 512):
+        out.append(('bignParamsEnc', dict(std_params(128), l=l)))
+    d = S.ecparams_enc(std_params(128))
+    for bad in (b'', d[:1], d[:-1], d + b'\0', d[1:], bytes(len(d))):
+        out.append(('bignParamsDec', dict(der=bad)))
+    for it in (0, 1, 9999):
+        out.append(('bpki.wrap', dict(kind='privkey', secret=privkey(32), pwd=PWD, salt=SALT, iter=it)))
+        out.append(('bpki.wrap', dict(kind='share', secret=bytes([1]) + data(16), pwd=PWD, salt=SALT, iter=it)))
+    for n in (0, 1, 16, 31, 33, 47, 63, 65, 128):
+        out.append(('bpki.wrap', dict(kind='privkey', secret=data(n), pwd=PWD, salt=SALT, iter=10000)))
+    for n in (0, 1, 16, 18, 24, 26, 32, 34):
+        out.append(('bpki.wrap', dict(kind='share', secret=bytes([1]) + data(n - 1) if n else b'', pwd=PWD, salt=SALT, iter=10000)))   # bpki.h: ERR_BAD_SHAREKEY
+    for first in (0, 17, 255):
+        out.append(('bpki.wrap', dict(kind='share', secret=bytes([first]) + data(16), pwd=PWD, salt=SALT, iter=10000)))                # bpki.h: ERR_BAD_SHAREKEY
+    for n in (0, 16, 23, 25, 33, 65):
+        out.append(('btokCVCWrap', dict(cvc_base(32), privkey=data(n) if n else b'')))
+    out.append(('btokSM.cmd', dict(key=SMKEY, ctr=1, cla=0x04, ins=1, p1=2, p2=3, cdf=data(4), rdf_len=0)))     # btok.h: ERR_BAD_APDU
+    out.append(('btokSM.cmd', dict(key=SMKEY, ctr=0, cla=0x00, ins=1, p1=2, p2=3, cdf=data(4), rdf_len=0)))     # btok.h: ERR_BAD_LOGIC
+    out.append(('btokSM.cmd', dict(key=SMKEY, ctr=2, cla=0x00, ins=1, p1=2, p2=3, cdf=data(4), rdf_len=0)))
+    out.append(('btokSM.resp', dict(key=SMKEY, ctr=1, sw1=0x90, sw2=0, rdf=data(4))))                           # btok.h: ERR_BAD_LOGIC
+    out.append(('btokSM.resp', dict(key=SMKEY, ctr=3, sw1=0x90, sw2=0, rdf=data(4))))
+    return out
+
+def auth_cases(tier):
+    """every single-bit corruption of a bpki container makes the unwrapping fail (and releases nothing of the key)"""
+    out = []
+    for kind, secret in (('privkey', privkey(32)), ('share', bytes([5]) + data(16, 4))):
+        e = S.epki_wrap(secret, PWD, SALT, 10000, kind)
+        for b in range(0, 8 * len(e), 1 if tier == 'thorough' else 3):
+            m = bytearray(e); m[b // 8] ^= 1 << (b % 8)
+            x = S.epki_dec(bytes(m))
+            if x is not None and x['iter'] > 40000:
+                continue
+            out.append(('bpki.unwrap', dict(kind=kind, epki=bytes(m), pwd=PWD), secret, 'epki', b))
     return out
